@@ -130,19 +130,23 @@ func (sc *sched) performCase(t *thread, cs *Case) {
 		if c.closed {
 			panic("send on closed channel")
 		}
-		t.vc.tick(t.id)
+		// release: publish the clock, then advance it (later events of t are not covered)
 		if u, i := sc.parkedPartner(t, c, false); u != nil && len(c.buf) == 0 {
 			// hand over directly to the oldest parked receiver
 			ucs := &u.op.cases[i]
 			ucs.slot.v, ucs.slot.ok = cs.val, true
+			uv := u.vc.clone()
 			u.vc.join(t.vc)
 			if c.cap == 0 {
-				t.vc.join(u.vc) // unbuffered: the receive also happens before the send completes
+				t.vc.join(uv) // unbuffered: the receive also happens before the send completes
+				u.vc.tick(u.id)
 			}
+			t.vc.tick(t.id)
 			u.op.completed, u.op.chosen = true, i
 			return
 		}
 		c.buf = append(c.buf, item{cs.val, t.vc.clone()})
+		t.vc.tick(t.id)
 		return
 	}
 	// receive
@@ -154,18 +158,20 @@ func (sc *sched) performCase(t *thread, cs *Case) {
 		// a sender parked on the full buffer moves in
 		if u, i := sc.parkedPartner(t, c, true); u != nil {
 			ucs := &u.op.cases[i]
-			u.vc.tick(u.id)
 			c.buf = append(c.buf, item{ucs.val, u.vc.clone()})
+			u.vc.tick(u.id)
 			u.op.completed, u.op.chosen = true, i
 		}
 		return
 	}
 	if u, i := sc.parkedPartner(t, c, true); u != nil {
 		ucs := &u.op.cases[i]
-		u.vc.tick(u.id)
 		cs.slot.v, cs.slot.ok = ucs.val, true
+		tv := t.vc.clone()
 		t.vc.join(u.vc)
-		u.vc.join(t.vc)
+		u.vc.join(tv)
+		u.vc.tick(u.id)
+		t.vc.tick(t.id)
 		u.op.completed, u.op.chosen = true, i
 		return
 	}
@@ -229,9 +235,9 @@ func (c *Chan[T]) Close() {
 		return
 	}
 	t := sc.cur
-	t.vc.tick(t.id)
 	cc.closed = true
 	cc.closeVC = t.vc.clone()
+	t.vc.tick(t.id)
 	// parked receivers are released by the enabledness rule (closed => enabled)
 }
 
@@ -289,7 +295,11 @@ func (sc *sched) deliver(c *chanCore, v any, vc VC) bool {
 		return true
 	}
 	if len(c.buf) < c.cap {
-		c.buf = append(c.buf, item{v, vc.clone()})
+		var cp VC
+		if vc != nil {
+			cp = vc.clone()
+		}
+		c.buf = append(c.buf, item{v, cp})
 		return true
 	}
 	return false
@@ -298,12 +308,14 @@ func (sc *sched) deliver(c *chanCore, v any, vc VC) bool {
 func (sc *sched) closeByScheduler(c *chanCore, vc VC) {
 	if !c.closed {
 		c.closed = true
-		c.closeVC = vc.clone()
+		if vc != nil {
+			c.closeVC = vc.clone()
+		}
 	}
 }
 
 // TimerSend lets shim packages (vtime, vcontext) deliver from a timer callback.
-func TimerSend[T any](c *Chan[T], v T) bool { return s.deliver(c.c, v, nil) }
+func TimerSend[T any](c *Chan[T], v T) bool { return s.deliver(c.c, v, s.fireVC) }
 
 // SchedulerClose closes c from a timer callback or from the running thread without a scheduling point.
 func SchedulerClose[T any](c *Chan[T]) {
@@ -312,9 +324,11 @@ func SchedulerClose[T any](c *Chan[T]) {
 		return
 	}
 	var vc VC
-	if s.cur != nil {
+	if s.inFire {
+		vc = s.fireVC
+	} else if s.cur != nil {
+		vc = s.cur.vc.clone()
 		s.cur.vc.tick(s.cur.id)
-		vc = s.cur.vc
 	}
 	s.closeByScheduler(c.c, vc)
 }
